@@ -413,7 +413,8 @@ def run(tier):
         allv = c.get("mps", []) + c.get("isvs", []) + c.get("aux", []) + c.get("esvs", []) + c.get("params", [])
         for e in allv:
             v = e["name"]
-            xs = [ext(c, v)] if e["size"] == 1 else ["%s_mfront_index_%d_" % (ext(c, v), i) for i in range(e["size"])]
+            # the name ExternalLibraryManager builds for element i of an array: decomposeVariableName("v[i]") = v_mfront_index_i
+            xs = [ext(c, v)] if e["size"] == 1 else ["%s_mfront_index_%d" % (ext(c, v), i) for i in range(e["size"])]
             b = c["bounds"].get(v, (None, None))
             pb = c["pbounds"].get(v)
             inherited = False
@@ -450,11 +451,65 @@ def run(tier):
                          "metadata is not read under that name" % sym)
             else:
                 rep.ok("<entry>_%s is exported and read" % sym, sample=False)
+    # ---------------- material property (generic material-property interface): bounds of the inputs
+    mp_path = os.path.join(VERIF, "corpus/meta/VerifMetaMP.mfront")
+    txt = open(mp_path).read()
+    entry = "%s_%s" % (re.search(r"@Material\s+(\w+)", txt).group(1), re.search(r"@Law\s+(\w+)", txt).group(1))
+    unit = re.search(r"@UnitSystem\s+(\w+)", txt).group(1)
+    src2, inc2 = gencheck.generate([mp_path], os.path.join(OUT, "C45", "genmp"))
+    W = writer_symbols(src2, inc2, entry + "_")
+    rep.count("exported objects in generated sources", len(W))
+    if len(W) < 8:
+        raise AnalysisBroken("%s: only %d exported objects found" % (entry, len(W)))
+    glo = glossary_bounds(unit)
+    inputs = re.findall(r"@Input\s+\w+\s+(\w+)\s*;", txt)
+    gl = dict(re.findall(r"(\w+)\.setGlossaryName\(\"(\w+)\"\)", txt))
+    bnd, pbnd = {}, {}
+    for m in re.finditer(r"@(Physical)?Bounds\s+(\w+)\s+in\s+[\[\]]\s*([-+.\deE*]+)\s*:\s*([-+.\deE*]+)\s*[\[\]]\s*;", txt):
+        (pbnd if m.group(1) else bnd)[m.group(2)] = (None if m.group(3) == "*" else float(m.group(3)), None if m.group(4) == "*" else float(m.group(4)))
+
+    def wantmp(sym, expect, what):
+        rep.count("declared values compared")
+        got = W.get(entry + "_" + sym)
+        if expect is None and got is None:
+            rep.ok("%s_%s is not exported (%s)" % (entry, sym, what), sample=False)
+        elif expect is None:
+            rep.fail("VALUE@%s_%s" % (entry, sym), "%s_%s is exported with %s although %s" % (entry, sym, got[1], what))
+        elif got is None:
+            rep.fail("VALUE@%s_%s" % (entry, sym), "%s_%s is not exported; the declarations give %s (%s)" % (entry, sym, expect, what))
+        elif got[1] == expect or (len(got[1]) == 1 and isinstance(expect, float) and abs(got[1][0] - expect) <= 1e-12 * abs(expect)):
+            rep.ok("%s_%s = %s" % (entry, sym, expect), sample=False)
+        else:
+            rep.fail("VALUE@%s_%s" % (entry, sym), "%s: %s_%s = %s; the declarations give %s (%s)" % (rel(got[2]), entry, sym, got[1], expect, what))
+    wantmp("nargs", float(len(inputs)), "number of @Input")
+    wantmp("args", [gl.get(v, v) for v in inputs], "external names of the inputs in declaration order")
+    for v in inputs:
+        x = gl.get(v, v)
+        b = bnd.get(v, (None, None))
+        pb = pbnd.get(v)
+        inh = False
+        if pb is None and v in gl:
+            pb, inh = glo.get(gl[v], (None, None)), True
+        pb = pb or (None, None)
+        src_ = "glossary entry %s (%s)" % (gl.get(v), unit) if inh else "@PhysicalBounds of %s" % v
+        wantmp(x + "_LowerBound", b[0], "@Bounds of %s" % v if b[0] is not None else "no lower bound is declared for %s" % v)
+        wantmp(x + "_UpperBound", b[1], "@Bounds of %s" % v if b[1] is not None else "no upper bound is declared for %s" % v)
+        wantmp(x + "_LowerPhysicalBound", pb[0], src_ if pb[0] is not None else "no lower physical bound for %s" % v)
+        wantmp(x + "_UpperPhysicalBound", pb[1], src_ if pb[1] is not None else "no upper physical bound for %s" % v)
+    for name, (ty, vals, loc) in sorted(W.items()):
+        tail = name[len(entry):]
+        ms = [(s_, t) for rx, s_, t in compiled if rx.match(tail)]
+        wants = sorted(set(t for s_, t in ms if t))
+        if ms:
+            rep.count("exported objects matched by a reader shape")
+        if wants and not [t for t in wants if any(ty == c_ or (c_.endswith("[") and ty.startswith(c_)) for c_ in COMPAT.get(t, ()))]:
+            rep.fail("TYPE@<law>%s" % tail, "%s: the generated sources define %s as '%s' but ExternalLibraryManager reads it through %s"
+                     % (rel(loc), name, ty, " / ".join(wants)))
     rep.floor("reader symbol-name shapes", 60)
     rep.floor("getters with a hypothesis-specific name and a fallback", 25)
     rep.floor("exported objects matched by a reader shape", 120)
     rep.floor("declared values compared", 115)
-    rep.assumptions += ["corpus: the two behaviours of corpus/meta and corpus/bounds through the generic interface; other interfaces and the "
-                        "material-property side are not covered", "setParameter versus recompilation is not decided",
+    rep.assumptions += ["corpus: the two behaviours of corpus/meta and corpus/bounds and the material property of corpus/meta through the generic "
+                        "interfaces; other interfaces are not covered", "setParameter versus recompilation is not decided",
                         "shapes are compared up to the entry name prefix; a variable part matches any identifier characters"]
     return rep
